@@ -361,7 +361,9 @@ fn run_pair(ops: &[String]) -> PairOut {
         let op = parse_op(line);
         // memory
         let om = apply(&mem, &op, "").unwrap_or_else(|_| "panic".into());
-        let dm = full_dump(&mem);
+        // (a store whose own mutex got poisoned by a panic can no longer be dumped: report that instead of
+        // aborting the case; cannot happen on the unchanged tree, where memory panics outside its lock)
+        let dm = catch_unwind(AssertUnwindSafe(|| full_dump(&mem))).unwrap_or_else(|_| vec![(99, (0, b"poisoned".to_vec()))]);
         // redb
         let before = full_dump_ns(pool.st(), ns);
         let probe_before = redb_probe(pool.st(), ns);
@@ -582,7 +584,7 @@ pub struct C16Pair {
 impl C16Pair {
     fn plan(&self, tier: Tier) -> &Vec<Vec<String>> {
         self.plan.get_or_init(|| {
-            let (depth, max) = if tier == Tier::Quick { (4, 45_000) } else { (6, 400_000) };
+            let (depth, max) = if tier == Tier::Quick { (4, 45_000) } else { (6, 250_000) };
             let run = |ops: &[String]| {
                 let r = run_pair(ops);
                 (r.case, r.state_key)
@@ -604,7 +606,7 @@ impl Group for C16Pair {
         "memory+redb: every request sequence up to length 4 (quick) / 6 (thorough) over {put, put_with_version, \
          put_batch(0..2 entries incl. repeated key), delete, get, get_version, get_prefix, reopen} x 2 keys x versions 0..2 \
          x 2 values, explored breadth-first modulo equality of the complete observable state of both real stores (dumps + \
-         redb get_version probes), capped at 45k/400k cases; then random sequences of 5..60 requests over 3 keys with versions \
+         redb get_version probes), capped at 45k/250k cases; then random sequences of 5..60 requests over 3 keys with versions \
          near 0, 2^32 and u64::MAX; a case is non-trivial when it contains an accepted and a refused write"
     }
     fn budget(&self, tier: Tier) -> usize { self.plan(tier).len() + Self::random_budget(tier) }
@@ -819,7 +821,7 @@ pub struct C16Cloud {
 impl C16Cloud {
     fn plan(&self, tier: Tier) -> &Vec<Vec<String>> {
         self.plan.get_or_init(|| {
-            let (depth, max) = if tier == Tier::Quick { (5, 80_000) } else { (7, 600_000) };
+            let (depth, max) = if tier == Tier::Quick { (5, 80_000) } else { (6, 300_000) };
             let (cases, per_depth) = bfs_plan(&cloud_alphabet(), depth, max, &run_cloud, &self.cache);
             eprintln!("C16Cloud: {} enumerated cases, new states per depth {:?}", cases.len(), per_depth);
             cases
@@ -831,10 +833,10 @@ impl Group for C16Cloud {
     fn property(&self) -> &'static str { "C16" }
     fn model(&self) -> Option<&'static str> { Some("kvv_cloud") }
     fn rule(&self) -> &'static str {
-        "cloud<memory>: every request sequence up to length 5 (quick) / 7 (thorough) over {put, put_with_version, put_batch(0..2 \
+        "cloud<memory>: every request sequence up to length 5 (quick) / 6 (thorough) over {put, put_with_version, put_batch(0..2 \
          entries), delete, get, get_version, get_prefix, enter, prepare, commit} x 2 keys x versions 0..2 x 2 values, explored \
          breadth-first modulo equality of the observable state (local dump, transaction status, pending entries read through \
-         get), capped at 80k/600k cases; then random transactions (mostly well-bracketed enter..prepare..commit with occasional \
+         get), capped at 80k/300k cases; then random transactions (mostly well-bracketed enter..prepare..commit with occasional \
          misuse) of 5..60 requests; non-trivial = an accepted and a refused write"
     }
     fn budget(&self, tier: Tier) -> usize { self.plan(tier).len() + if tier == Tier::Quick { 2000 } else { 40_000 } }
